@@ -25,7 +25,7 @@ RULE = ('one call of a separation helper per case on real Stream / MultiStream o
         'value the numeric stage returned is recorded and handed to the model, with many cases having every K on one side of 1 '
         'and forced top/bottom chemicals; phase_fraction is also called directly with 1-3 chemicals and forced fractions. '
         'mix_and_split / mix_and_split_with_moisture_content also get a bottom outlet on another property package (superset, '
-        'reordered superset, subset) that is usually reused (already holds flows) and often receives nothing. State kept between calls: the lle / vle multi_stream argument is usually one that still holds flows of an earlier call, and the equilibrium stub is in most cases relative (it splits whatever material the working stream holds, i.e. a conserving equilibrium; the rows it saw are compared with the rows of the model); phase_split feeds carry a history (per-phase views fetched, an earlier split, flows rewritten, phase set changed; half of the histories are view/split -> phases -> set) executed on the real MultiStream and on the cached-view state machine. Compared: every outlet / '
+        'reordered superset, subset) that is usually reused (already holds flows) and often receives nothing. State kept between calls: the lle / vle multi_stream argument is usually one that still holds flows of an earlier call, and the equilibrium stub is in most cases relative (it splits whatever material the working stream holds, i.e. a conserving equilibrium; the rows it saw are compared with the rows of the model); phase_split feeds carry a history (per-phase views fetched, an earlier split, flows rewritten, phase set changed; half of the histories are view/split -> phases -> set) executed on the real MultiStream and on the cached-view state machine. mix_and_split also gets a MultiStream top outlet with inlets in the phases L, g, l, s (owned by the top, other-case twin of an owned phase, or new) on the same or another property package. A few calls per run use the REAL flash on Water / Ethanol (V, and x / y specifications within 1e-6 of the feed composition): the wrapper must hand the rows through and the flash must honour its contract (rows add up to the feed, none negative). Compared: every outlet / '
         'mutated inlet flow per phase (1e-9 relative), returned phase fraction, exception class, number of infeasibility '
         'warnings, phases of the outlets. non-trivial = the call returned normally and moved material, or took an '
         'infeasibility / clipping branch; distinct = distinct case hash')
@@ -46,7 +46,8 @@ ASSUMPTIONS = [
 ]
 TRUSTED = ['model coq/C20/Model.v is hand-written from thermosteam/separations.py and equilibrium/binary_phase_fraction.py '
            '(no translator; DESIGN mentions one for handle_infeasible_flow_rates, the tie is the correspondence check on every run)',
-           'the model follows the source with pending_fixes/C20_1..6 applied; on a tree without them the CORPUS cases '
+           'pending_fixes/C20_7 (VLE._lever_rule) is needed for the real-flash corpus case to pass; C20_1..6 are applied in /repo',
+    'the model follows the source with pending_fixes/C20_1..6 applied; on a tree without them the CORPUS cases '
            'reproduce each defect (mismatch + direct oracle message)',
            'material_balance(balance="composition") (iteration to convergence) and MultiStageEquilibrium are not modelled']
 CASE_TIMEOUT = 60
@@ -142,6 +143,17 @@ def gen_mix_split(rng):
     alias = rng.choice([None, None, None, 'top', 'bottom'])
     c = {'fn': 'mix_split', 'ins': ins, 'split': split, 'alias': alias,
          'top0': maybe_empty(rng), 'bot0': maybe_empty(rng), 'pkg': None}
+    if rng.random() < 0.4:
+        # MultiStream top outlet; inlets in various phases (also phases the top lacks, with and without a same-letter
+        # twin it owns) and on other property packages (same chemicals, other order / superset)
+        k = rng.randint(1, 4)
+        c['ins'] = [flows(rng) if rng.random() < 0.9 else [0.] * N for _ in range(k)]
+        c['top_phases'] = rng.choice(['gl', 'gl', 'ls', 'Ll', 'gls', 'Lg', 'gs'])
+        c['in_phases'] = [rng.choice('llLLgs') for _ in range(k)]
+        c['in_pkgs'] = [rng.choice([None, None, 'sup', 'perm']) for _ in range(k)]
+        c['alias'] = None
+        c['top0'] = {p: (flows(rng) if rng.random() < 0.4 else [0.] * N) for p in c['top_phases']}
+        return c
     if rng.random() < 0.4:
         # bottom outlet on another property package, usually reused (already holding flows)
         c['pkg'] = pkg = rng.choice(['sup', 'perm', 'perm', 'sub'])
@@ -536,6 +548,19 @@ def gen_rr(rng):
     return {'fn': 'rr', 'z': [fl(x) for x in z], 'K': [fl(F(2) ** rng.randint(-10, 10)) for _ in range(n)],
             'za': fl(za), 'zb': fl(zb), 'phi': fl(rng.choice(PHIS))}
 
+def gen_vle_real(rng):
+    """separations.vle on database chemicals (Water / Ethanol) with the REAL flash, including x / y specifications
+    close to the feed composition (the lever rule's tolerance band)"""
+    fw, fe = fl(rng.choice([F(10), F(20), F(40), F(5)])), fl(rng.choice([F(10), F(20), F(30)]))
+    z = fw / (fw + fe)
+    kind = rng.choice(['y', 'y', 'x', 'x', 'V'])
+    if kind == 'V':
+        spec = {'V': fl(rng.choice([F(1, 4), F(1, 2), F(3, 4)])), 'P': 101325.}
+    else:
+        d = rng.choice([1e-6, 1e-6, -1e-6, 5e-7, -5e-7, 2e-7])
+        spec = {kind: [z + d, 1 - z - d], 'P': 101325.}
+    return {'fn': 'vle_real', 'flows': [fw, fe], 'spec': spec, 'ms': rng.random() < 0.5}
+
 GENS = [('binary', gen_binary, 4), ('rr', gen_rr, 4), ('clip', gen_clip, 6), ('mix_split', gen_mix_split, 8), ('moisture', gen_moisture, 12),
         ('mix_moisture', gen_mix_moisture, 4),
         ('partition', gen_partition, 16), ('partition_real', lambda r: gen_partition(r, real=True), 8),
@@ -549,6 +574,8 @@ def gen_cases(rng, tier):
     weights = [g[2] for g in GENS]
     fns = {g[0]: g[1] for g in GENS}
     cases = []
+    for _ in range(2 if tier == 'quick' else 12):      # real flashes are slow: a fixed small number
+        cases.append(gen_vle_real(rng))
     for g in GENS:                      # every helper at least a few times
         for _ in range(3):
             cases.append(g[1](rng))
@@ -570,6 +597,23 @@ def mkmulti(phases, rows):
     for p, r in zip(phases, rows):
         ms.imol[p] = np.array(r, float)
     return ms
+
+def to_pkg(v, pkg):
+    """flows given in the main package's order, in the order of another package (extra chemicals: 0)"""
+    if not pkg:
+        return v
+    out = [0.] * len(PKGS[pkg])
+    for i, j in enumerate(pkg_pos(pkg)):
+        out[j] = v[i]
+    return out
+
+def rows4(s):
+    """rows of the four phase codes L, g, l, s (absent phases: zero rows) and the phase string"""
+    tmo = env()['tmo']
+    if isinstance(s, tmo.MultiStream):
+        ph = [str(p) for p in s.phases]
+        return [row(s, p) if p in ph else [0.] * N for p in 'Lgls'], ''.join(ph)
+    return [arr(s) if p == str(s.phase) else [0.] * N for p in 'Lgls'], str(s.phase)
 
 def arr(s):
     return [float(x) for x in np.asarray(s.mol.to_array(), float)]
@@ -733,6 +777,15 @@ def run_impl(case):
         mol = np.array(case['mol'], float); mx = np.array(case['max'], float)
         c = Catch().run(lambda: S.handle_infeasible_flow_rates(mol, mx, case['strict']))
         return {'arr': mol.tolist(), 'err': c.err, 'warns': c.warns, 'max_after': mx.tolist()}
+    if fn == 'mix_split' and case.get('top_phases'):
+        ins = [mkstream(to_pkg(v, pk), ph, pkg=pk) for v, ph, pk in zip(case['ins'], case['in_phases'], case['in_pkgs'])]
+        top = mkmulti(case['top_phases'], [case['top0'][p] for p in case['top_phases']])
+        bot = mkstream(case['bot0'])
+        split = case['split'] if isinstance(case['split'], float) else np.array(case['split'], float)
+        c = Catch().run(lambda: S.mix_and_split(ins, top, bot, split))
+        tr, tp = rows4(top); br, bp = rows4(bot)
+        return {'top': tr, 'bot': br, 'top_phases': tp, 'bot_phases': bp, 'err': c.err,
+                'ins_kept': [arr(s_) for s_ in ins] == [to_pkg(v, pk) for v, pk in zip(case['ins'], case['in_pkgs'])]}
     if fn == 'mix_split':
         ins = [mkstream(v) for v in case['ins']]
         top = ins[0] if case['alias'] == 'top' else mkstream(case['top0'])
@@ -815,6 +868,16 @@ def run_impl(case):
             c = Catch().run(lambda: S.material_balance(ids, vin, cin, cout, case['is_exact'], case['balance']))
         return {'vin': [arr(s) for s in vin], 'err': c.err, 'calls': rec.calls,
                 'const_kept': [arr(s) for s in cin + cout] == case['cin'] + case['cout']}
+    if fn == 'vle_real':
+        th = we_thermo()
+        feed = tmo.Stream(None, thermo=th); feed.mol[:] = np.array(case['flows'], float)
+        vap = tmo.Stream(None, thermo=th); liq = tmo.Stream(None, thermo=th)
+        ms = tmo.MultiStream(None, phases='gl', thermo=th)          # always given: it shows what the flash produced
+        spec = {k: (np.array(v, float) if isinstance(v, list) else v) for k, v in case['spec'].items()}
+        c = Catch().run(lambda: S.vle(feed, vap, liq, multi_stream=ms, **spec))
+        f2 = lambda s_: [float(x) for x in np.asarray(s_.mol.to_array(), float)]
+        return {'top': f2(vap), 'bot': f2(liq), 'err': c.err, 'feed_after': f2(feed),
+                'g': [float(x) for x in np.asarray(ms.imol['g'], float)], 'l': [float(x) for x in np.asarray(ms.imol['l'], float)]}
     if fn == 'binary':
         bpf = tmo.equilibrium.binary_phase_fraction
         with RRRecorder() as rr:
@@ -889,6 +952,11 @@ def coq_case(case, out):
     if fn == 'clip':
         return (f'(clip_eqb (handle_infeasible {qlist(case["mol"])} {qlist(case["max"])} {cbool(case["strict"])}) '
                 f'{qlist(out["arr"])} {coerr(out["err"])} {cnat(out["warns"])} && {cbool(out["max_after"] == case["max"])})')
+    if fn == 'mix_split' and case.get('top_phases'):
+        inl = clist([f'({cnat(PHCODE[ph])}, {qlist(v)})' for ph, v in zip(case['in_phases'], case['ins'])])
+        return (f'(xsplit_eqb (mix_and_split_multi {cnat(N)} {present_list(case["top_phases"])} {inl} '
+                f'{qlist(split_vec(case["split"]))}) {present_list(out["top_phases"])} {clist(out["top"], qlist)} '
+                f'{clist(out["bot"], qlist)} && {cbool(out["err"] is None and out["ins_kept"] and out["bot_phases"] == out["top_phases"])})')
     if fn == 'mix_split' and case.get('pkg'):
         pos = clist(pkg_pos(case['pkg']), lambda x: copt(x, cnat))
         return (f'(osplit_eqb (mix_and_split_other {cnat(N)} {clist(case["ins"], qlist)} {qlist(split_vec(case["split"]))} '
@@ -969,6 +1037,14 @@ def coq_case(case, out):
         exp = f'(Err {cerr(out["err"])})' if out['err'] else f'(Ok {qlist(out["val"])})'
         return (f'(resv_approxb (chemical_splits {cbool(out["heur"])} {qlist(case["a"])} {cvopt(case["b"])} '
                 f'{cvopt(case["mixed"])}) {exp} && {cbool(out["a_after"] == case["a"])})')
+    if fn == 'vle_real':
+        if out['err']:
+            return cbool(out['err'] == 'InfeasibleRegion' and out['feed_after'] == case['flows'])
+        # the wrapper hands the rows of the flash through; the flash itself must honour its contract
+        return (f'(pair_approxb (vle_ms (eq_abs {qlist(out["g"])} {qlist(out["l"])}) [[0; 0]; [0; 0]] 1%nat {qlist(case["flows"])}) '
+                f'{qlist(out["top"])} {qlist(out["bot"])} '
+                f'&& eq_contract_okb {qlist(case["flows"])} {qlist(out["g"])} {qlist(out["l"])} '
+                f'&& {cbool(out["feed_after"] == case["flows"])})')
     if fn == 'binary':
         exp = f'(Err {cerr(out["err"])})' if out['err'] else f'(Ok {q(out["val"])})'
         return (f'(resq_approxb (binary_phase_fraction {root_of(out["rr"])} {qlist(case["z"])} {qlist(case["K"])} '
@@ -1015,8 +1091,10 @@ def nontrivial(case, out):
     fn = case['fn']
     if out.get('err'):
         return out['err'] == 'InfeasibleRegion'
-    if fn in ('clip', 'binary', 'rr'):
+    if fn in ('clip', 'binary', 'rr', 'vle_real'):
         return True
+    if fn == 'mix_split' and case.get('top_phases'):
+        return any(any(r) for r in out['top'] + out['bot'])
     if fn in ('mix_split', 'partition', 'lle', 'vle'):
         return any(out['top']) or any(out['bot'])
     if fn in ('moisture', 'mix_moisture'):
@@ -1034,6 +1112,8 @@ def nontrivial(case, out):
 def classify(case, out):
     fn = case['fn']
     ks = ['fn:' + fn, 'outcome:' + (out.get('err') or 'ok')]
+    if fn == 'vle_real':
+        ks.append('spec:' + '+'.join(sorted(case['spec'])))
     if fn in ('partition', 'phase_fraction'):
         ks.append('solver:' + ('real' if case['phi'] is None else 'table'))
         if case['phi'] is None:
@@ -1064,6 +1144,12 @@ def classify(case, out):
         ks.append('is_exact:' + str(case['is_exact']))
     if fn == 'mix_split' and case['alias']:
         ks.append('alias:' + case['alias'])
+    if fn == 'mix_split' and case.get('top_phases'):
+        ks.append('top:MultiStream')
+        for ph, pk in zip(case['in_phases'], case['in_pkgs']):
+            twin = ph.swapcase() in case['top_phases'] and ph not in case['top_phases']
+            ks.append('inlet:' + ('alias-phase' if twin else 'own-phase' if ph in case['top_phases'] else 'new-phase')
+                      + (':other-package' if pk else ''))
     if fn in ('mix_split', 'mix_moisture') and case.get('pkg'):
         ks.append('bottom_package:' + case['pkg'] + (':reused' if any(case['bot0']) else ':fresh'))
     return ks
@@ -1088,6 +1174,16 @@ def oracle(case):
         return oracle_real_eq(case)
     out = run_impl(case)
     err = out.get('err')
+    if fn == 'vle_real':
+        if err:
+            return None if err == 'InfeasibleRegion' else f'vle (real flash, {case["spec"]}): raised {err}'
+        Ft = sum(case['flows'])
+        if min(out['top'] + out['bot']) < -1e-12 * Ft:
+            return (f'vle (real flash, {case["spec"]}): negative flow without InfeasibleRegion: vapour {out["top"]} '
+                    f'liquid {out["bot"]} for the feed {case["flows"]}')
+        if not close(vadd(out['top'], out['bot']), case['flows']):
+            return f'vle (real flash, {case["spec"]}): outlets {out["top"]} + {out["bot"]} differ from the feed {case["flows"]}'
+        return None
     if fn == 'binary':
         if err:
             return None if sum(case['z']) == 0 else f'binary phase_fraction: raised {err}'
@@ -1125,6 +1221,24 @@ def oracle(case):
             return f'clip: result {out["arr"]} outside [0, {case["max"]}]'
         if (out['warns'] > 0) != viol:
             return 'clip: warning does not match infeasibility'
+        return None
+    if fn == 'mix_split' and case.get('top_phases'):
+        if err:
+            return f'mix_and_split: raised {err} (MultiStream top outlet)'
+        mixed = vadd(*case['ins'])
+        sp = split_vec(case['split'])
+        tt, bt = vadd(*out['top']), vadd(*out['bot'])
+        if not close(vadd(tt, bt), mixed):
+            return (f'mix_and_split: outlets (all phases) {tt} + {bt} differ from the mixed inlets {mixed} '
+                    f'(top phases {case["top_phases"]}, inlet phases {case["in_phases"]}, inlet packages {case["in_pkgs"]})')
+        if not close(tt, [s_ * m_ for s_, m_ in zip(sp, mixed)]):
+            return f'mix_and_split: top outlet {tt} is not split * mixed'
+        if all(0 <= s_ <= 1 for s_ in sp) and not all(nonneg(r) for r in out['top'] + out['bot']):
+            return 'mix_and_split: negative outlet flow'
+        # every phase of an inlet is found in the outlets under its own letter or its other-case twin
+        for ph, v in zip(case['in_phases'], case['ins']):
+            if any(v) and not ({ph, ph.swapcase()} & set(out['top_phases'])):
+                return f'mix_and_split: inlet phase {ph} has no row in the top outlet {out["top_phases"]}'
         return None
     if fn == 'mix_split' and case.get('pkg'):
         mixed = vadd(*case['ins'])
@@ -1312,8 +1426,14 @@ def oracle(case):
         return None
     return None
 
-# real LLE / VLE on database chemicals (search step only; no stubs)
 _db = {}
+def we_thermo():
+    if 'we' not in _db:
+        tmo = env()['tmo']
+        _db['we'] = tmo.Thermo(tmo.Chemicals(['Water', 'Ethanol'], cache=True))
+    return _db['we']
+
+# real LLE / VLE on database chemicals (search step only; no stubs)
 def db_thermo():
     if not _db:
         tmo = env()['tmo']
@@ -1372,6 +1492,11 @@ CORPUS = [   # minimised inputs of the defects found while building this check (
      'bot0': [0., 7.5, 1., 0., 0., 0., 3.], 'pkg': 'sup'},
     {'fn': 'mix_split', 'ins': [[0., 10., 0., 0., 0., 0.]], 'split': [0.5, 1., 1., 0.25, 1., 1.], 'alias': None, 'top0': Z6,
      'bot0': [0., 5., 0., 0., 1., 0., 0.], 'pkg': 'perm'},
+    # real flash, vapour composition specified 1e-6 above the feed's: the lever-rule fraction is clamped to 1 (pending fix C20_7)
+    {'fn': 'vle_real', 'flows': [20., 20.], 'spec': {'y': [0.500001, 0.499999], 'P': 101325.}, 'ms': True},
+    # MultiStream top outlet, an inlet of another package in a phase the top only owns as its other-case twin
+    {'fn': 'mix_split', 'ins': [[1., 2., 0., 0., 0., 0.], [0., 1., 4., 0., 0., 0.]], 'split': 0.5, 'alias': None, 'pkg': None,
+     'top_phases': 'gl', 'in_phases': ['l', 'L'], 'in_pkgs': [None, 'perm'], 'top0': {'g': Z6, 'l': Z6}, 'bot0': Z6},
     # a feed whose per-phase view was cached before its phase set changed and new flows were written
     {'fn': 'phase_split', 'phases': 'gl', 'rows': [[1., 0., 0., 0., 0., 0.], [0., 2., 0., 0., 0., 0.]], 'multi': True,
      'hist': [['view', 'l'], ['phases', 'Lgl'], ['set', 'l', [0., 3., 1., 0., 0., 0.]]], 'outs0': [Z6, Z6, Z6]},
